@@ -50,6 +50,13 @@ def names_trace(ctx):
             X2, back = inv.transform(X1, ty)
             e["roundtrip"] = bool(numpy.allclose(back[:4], y[:4], rtol=1e-9, atol=0) and numpy.isnan(back[4])
                                   and numpy.array_equal(X1, X) and numpy.array_equal(X2, X))
+            # the far ends of the domain, where the two functions are still exact inverses in double precision
+            far = {"LOG": [2.0 ** -60, 1e-300, 1e300], "EXP": [-40.0, -700.0, 700.0]}.get(e["cls"])
+            if far:
+                yf = numpy.array(far + [numpy.nan])
+                _, tf = tr.transform(X[:4].copy(), yf.copy())
+                _, bf = inv.transform(X[:4].copy(), tf)
+                e["roundtrip"] = bool(e["roundtrip"] and numpy.allclose(bf[:3], yf[:3], rtol=1e-9, atol=0) and numpy.isnan(bf[3]))
         except Exception as ex:
             e["inv"] = "error: " + repr(ex)[:60]
         table.append(e)
@@ -99,6 +106,11 @@ def tt2c_trace(tid, labels, y, seed, probe):
     tt.fit(X, ya)
     inner_train = [int(v) for nm, f in stubs.LOG if nm == "fitclf" for v in f["ys"]]
     sigma = [[int(k), int(v)] for k, v in tt.transformer_.permutation_.items()]
+    if seed % 3 == 0:
+        # the caller hands the same transformer object to a second estimator trained on the labels in another order:
+        # the first estimator keeps decoding with the permutation of ITS fit
+        other = TransformedTargetClassifier2(classifier=stubs.RecClf(), transformer=tt.get_params(deep=False)["transformer"])
+        other.fit(X[::-1].copy(), numpy.array(sorted(y, reverse=True), dtype=numpy.int64))
     Xq = X[probe:probe + 1]
     plain = stubs.RecClf().fit(X, ya)
     S = [[int(c), int(plain.score_[c])] for c in plain.classes_.tolist()]
